@@ -786,6 +786,19 @@ def NoBoundary (z : Zone) : Int → List Transition → Int → Prop
   | _, [], _ => True
   | p, tr :: rest, ℓ => ℓ ≠ tr.time + p ∧ NoBoundary z (typeAt z tr.idx).off rest ℓ
 
+/-- `ℓ` is none of the boundary seconds `T + prevOff` of the transitions that CHANGE the offset (the
+only seconds the property excepts: an offset-preserving transition ends no skipped or repeated interval) -/
+def NoBoundary' (z : Zone) : Int → List Transition → Int → Prop
+  | _, [], _ => True
+  | p, tr :: rest, ℓ =>
+    (p ≠ (typeAt z tr.idx).off → ℓ ≠ tr.time + p) ∧ NoBoundary' z (typeAt z tr.idx).off rest ℓ
+
+theorem noBoundary'_of (z : Zone) (ℓ : Int) (ts : List Transition) :
+    ∀ p, NoBoundary z p ts ℓ → NoBoundary' z p ts ℓ := by
+  induction ts with
+  | nil => intro p _; trivial
+  | cons tr rest ih => intro p h; exact ⟨fun _ => h.1, ih _ h.2⟩
+
 theorem classifies_congr (off off' : Int → Int) (ℓ : Int) (r : Mapped Ltt)
     (h : ∀ t, t + off t = ℓ ↔ t + off' t = ℓ) : Classifies off' ℓ r → Classifies off ℓ r := by
   cases r with
